@@ -6,7 +6,8 @@ from ..core import Case, TOL, finite
 from .common import flat_op, fr, split_op, wf_simplex_fail, wf_dist_fail, known_product_rounding
 
 RULE = ("pairs and triples of well-formed opinions (zero base rates, vacuous and dogmatic factors included) on dyadic "
-        "grids 1/8..1/64 and random floats; factor sizes 2..4 (two factors) and 2..3 (three factors); unlabelled "
+        "grids 1/8..1/64 and random floats, and factors whose tiny positive base-rate entries give a joint base rate around "
+        "or below machine epsilon in the cell that bounds the uncertainty; factor sizes 2..4 (two factors) and 2..3 (three factors); unlabelled "
         "(validated) and labelled (usize and newtype index) implementations, owned and borrowed operands, f32/f64; "
         "each pair is also run with the factors exchanged (transposition); non-trivial = no vacuous factor")
 NONE_KINDS = ("NONE", "PANIC")
@@ -45,6 +46,15 @@ def gen(rng, tier):
                                         tag=tag, meta={"g": gid, "side": 0}))
                         out.append(Case("prod2", ty, fam, st, [n1, n0], flat_op(w1) + flat_op(w0), mdims=[n1, n0, lab],
                                         tag=tag, meta={"g": gid, "side": 1}))
+        for sizes in [(2, 2), (2, 3), (3, 2), (3, 3), (2, 2, 2), (2, 3, 2), (3, 2, 3), (3, 3, 3)]:
+            for i in range(4 if tier == "quick" else 200):
+                ws = tiny_factors(rng, ty, sizes)
+                if ws is None:
+                    continue
+                nums = sum((flat_op(w) for w in ws), [])
+                for fam, lab in [("arr", 0), ("marrd", 1)] + ([("marrdn", 1)] if len(sizes) == 2 else []):
+                    out.append(Case("prod%d" % len(sizes), ty, fam, rng.choice(["own", "ref"]), list(sizes), nums,
+                                    mdims=list(sizes) + [lab], tag="tiny_joint_base_rate"))
         for n0 in (2, 3):
             for n1 in (2, 3):
                 for n2 in (2, 3):
@@ -62,6 +72,18 @@ def gen(rng, tier):
                             out.append(Case("prod3", ty, fam, rng.choice(["own", "ref"]), [n0, n1, n2], nums,
                                             mdims=[n0, n1, n2, lab], tag=tag + "3"))
     return out
+
+
+def tiny_factors(rng, ty, sizes):
+    """factors with one tiny positive base-rate entry each, such that the joint base rate of that cell lies around or
+    below machine epsilon yet is not zero: the cell still bounds the uncertainty"""
+    k = len(sizes)
+    if ty == "f64":
+        e = rng.choice([52, 54, 60, 80]) // k + rng.below(3)
+    else:
+        e = rng.choice([23, 25, 30]) // k + rng.below(3)
+    ws = [G.tiny_base_rate_opinion(rng, ty, n, 2.0 ** -e) for n in sizes]
+    return None if any(w is None for w in ws) else ws
 
 
 def factors(c):
